@@ -101,7 +101,14 @@ type PureDecl struct {
 	Src     string
 }
 
+type GlobalInv struct {
+	Pkg string
+	Cl  Clause
+	Src string
+}
+
 type ContractSet struct {
+	GInvs    []*GlobalInv
 	Funcs    map[string]*FuncContract
 	Ghosts   map[string]*GhostDecl
 	Specs    map[string]*SpecFunc
@@ -120,7 +127,7 @@ var funcHdrRe = regexp.MustCompile(`^(assume\s+)?func\s+(.+?)\s*$`)
 var loopRe = regexp.MustCompile(`^loop\[(\d+)\]\s+(invariant|decreases|modifies)\s+(.*)$`)
 var labelRe = regexp.MustCompile(`^\[([A-Za-z0-9_.:-]+)\]\s*(.*)$`)
 var ghostAtRe = regexp.MustCompile(`^ghost\s+at\s+(entry|return|call\[(\d+|\*)\]\s+(\S+)\s+(before|after))\s*:\s*\$([A-Za-z0-9_]+)\s*=\s*(.*)$`)
-var callSpecRe = regexp.MustCompile(`^at\s+call\[(\d+|\*)\]\s+(\S+)\s+(assert|iter)\s+(.*)$`)
+var callSpecRe = regexp.MustCompile(`^at\s+call\[(\d+|\*)\]\s+(\S+)\s+(assert|iter|assume)\s+(.*)$`)
 
 // parseContractFile reads //@ lines. pkgPath is the default package for relative names.
 func (cs *ContractSet) parseContractFile(file string, pkgPath string) error {
@@ -205,6 +212,18 @@ func (cs *ContractSet) parseContractText(text, file, pkgPath string) error {
 			} else {
 				cs.Axioms = append(cs.Axioms, ax)
 			}
+			cur = nil
+		case strings.HasPrefix(s, "invariant global "):
+			r := strings.TrimPrefix(s, "invariant global ")
+			label := ""
+			if m := labelRe.FindStringSubmatch(r); m != nil {
+				label, r = m[1], m[2]
+			}
+			e, err := parseExpr(r)
+			if err != nil {
+				return fail(err)
+			}
+			cs.GInvs = append(cs.GInvs, &GlobalInv{Pkg: pkgPath, Cl: Clause{label, e, r}, Src: src})
 			cur = nil
 		case strings.HasPrefix(s, "pure "):
 			for _, p := range strings.Fields(strings.TrimPrefix(s, "pure ")) {
